@@ -31,11 +31,32 @@ type flCase struct {
 // stepTicker has non-increasing counts with count(l) <= max exactly for l >= thr.
 type stepTicker struct {
 	thr, max int
+	shape    int // 0: counts change by one per level; 1: a cliff (2^30 below the threshold); 2: a factor of 10 per level
 	probes   []int
 }
 
 func (t *stepTicker) CountTicks(l int) int {
 	t.probes = append(t.probes, l)
+	switch t.shape {
+	case 1:
+		if l >= t.thr {
+			return t.max
+		}
+		return 1 << 30
+	case 2:
+		if l >= t.thr {
+			c := t.max
+			for k := t.thr; k < l && c > 0; k++ {
+				c /= 10
+			}
+			return c
+		}
+		c := t.max*10 + 1
+		for k := l; k < t.thr-1 && c < 1<<40; k++ {
+			c *= 10
+		}
+		return c
+	}
 	if l >= t.thr {
 		c := t.max - (l - t.thr)
 		if c < 0 {
@@ -71,15 +92,19 @@ func findLevelReplay(in io.Reader, raw bool, args []string) (*Summary, error) {
 				sum.viol("panic", c, "panic: %v", r)
 			}
 		}()
-		tk := &stepTicker{thr: fc.Thr, max: fc.Max}
-		o := scale.TickOptions{Max: fc.Max, MinLevel: fc.MinL, MaxLevel: fc.MaxL}
-		sum.Checks++
-		lvl, ok := o.FindLevel(tk, fc.Guess)
-		if ok != fc.OK || (ok && lvl != fc.Level) {
-			sum.viol("FindLevel", c, "FindLevel = (%d,%v) want (%d,%v); probes %v", lvl, ok, fc.Level, fc.OK, tk.probes)
-		}
-		if len(tk.probes) > 2100 {
-			sum.viol("FindLevel-probes", c, "%d probes", len(tk.probes))
+		// the model abstracts a ticker by its threshold; the same threshold is realised by count functions of different
+		// steepness (FindLevel may look at counts only to compare them with Max)
+		for shape := 0; shape < 3; shape++ {
+			tk := &stepTicker{thr: fc.Thr, max: fc.Max, shape: shape}
+			o := scale.TickOptions{Max: fc.Max, MinLevel: fc.MinL, MaxLevel: fc.MaxL}
+			sum.Checks++
+			lvl, ok := o.FindLevel(tk, fc.Guess)
+			if ok != fc.OK || (ok && lvl != fc.Level) {
+				sum.viol("FindLevel", c, "count shape %d: FindLevel = (%d,%v) want (%d,%v); probes %v", shape, lvl, ok, fc.Level, fc.OK, tk.probes)
+			}
+			if len(tk.probes) > 2100 {
+				sum.viol("FindLevel-probes", c, "%d probes", len(tk.probes))
+			}
 		}
 	})
 	return sum, err
